@@ -356,6 +356,10 @@ func isPureExternal(name string) bool {
 	if strings.HasPrefix(name, "(") {
 		return name == "(*strings.Replacer).Replace"
 	}
+	switch name {
+	case "path/filepath.ToSlash", "path/filepath.FromSlash", "path/filepath.Join", "path/filepath.Dir", "path/filepath.Base", "path/filepath.Clean", "path/filepath.Ext", "path/filepath.IsAbs", "path/filepath.Rel", "path/filepath.Split", "path/filepath.VolumeName":
+		return true // the lexical ones; Abs, Glob, Walk, EvalSymlinks read the file system
+	}
 	for _, pk := range []string{"strings.", "strconv.", "unicode.", "unicode/utf8.", "path.", "math.", "errors."} {
 		if strings.HasPrefix(name, pk) {
 			return true
